@@ -286,6 +286,34 @@ class TypeTok:
         self.name = name
 
 
+class _SymMath:
+    """The `math` module: Python floats are computed, symbolic arguments go to the uninterpreted real functions of the
+    operation table (sqrt / exp / log / cos / sin / tanh), e.g. math.sqrt(embed_dim) with a symbolic embedding width."""
+
+    def __getattr__(self, name):
+        import math
+
+        real = getattr(math, name)
+        if not callable(real):
+            return real
+
+        def f(*args):
+            if any(is_z3(a) for a in args):
+                if name in ops.UF and len(args) == 1:
+                    a = args[0]
+                    ar = z3.ToReal(a) if a.sort() == z3.IntSort() else a
+                    r = ops.UF[name](ar)
+                    if name == "sqrt":      # ground instance of: the square root of a positive real is positive
+                        cur().assume(z3.Implies(ar > 0, r > 0))
+                    if name == "exp":
+                        cur().assume(r > 0)
+                    return r
+                raise Unsupported(f"math.{name} of a symbolic value")
+            return real(*args)
+
+        return f
+
+
 class Lambda:
     def __init__(self, node, env, frame):
         self.node = node
@@ -753,9 +781,7 @@ class Interp:
                 if imp[1] in ("torch.nn.functional",):
                     return TorchMod("torch.nn.functional")
                 if imp[1] in ("math",):
-                    import math
-
-                    return math
+                    return _SymMath()
                 return Opaque(imp[1])
             _, modname, attr = imp
             if modname == "torch.nn" and attr == "functional":
@@ -1403,6 +1429,8 @@ def _b_isinstance(x, t):
         if n == "Tensor" and isinstance(x, SymTensor):
             return True
         if n in ("TensorDict", "TensorDictBase") and isinstance(x, SymTD):
+            return True
+        if n.split(".")[-1] in getattr(x, "_isinstance_of", ()):      # contract stubs standing for library objects (e.g. nn.BatchNorm1d)
             return True
         if n.endswith("Iterable") and isinstance(x, (list, tuple, dict)):   # typing / collections.abc Iterable: plain containers only
             return True
